@@ -51,7 +51,7 @@ def frames(prop):
         'frame/all_observers-filled-only-in-add_new_observers', r'\bao\.insert\(', {'add_new_observers'}, ST, min_hits=1))
     add({'C10'}, lambda: F.absent(
         'frame/all_observers-keyed-by-id', r'\bao\.insert\((?!\s*obs\.id\(\)\s*,\s*obs\.clone\(\)\s*\))', ST))
-    add({'C10', 'C05'}, lambda: F.only_in(
+    add({'C10', 'C05', 'C07'}, lambda: F.only_in(
         'frame/clone-sentinel-touched-only-by-new-and-drop', r'\bsentinel\b', {'new', 'drop', None}, ['src/public.rs'], min_hits=4))
 
     add({'C10', 'C07', 'C05', 'C09'}, lambda: F.in_order(
@@ -119,6 +119,35 @@ def frames(prop):
         'frame/ordmap-symmetric_diff-is-exactly-self.diff(other)-retagged', 'incremental-map/src/im_rc.rs', 'symmetric_diff',
         r'self\.diff\(other\)\.map\(DiffElement::from_diff_item\)',
         impl="impl<'a, K: Ord + 'a, V: PartialEq + 'a> SymmetricDiffMap<'a, K, V> for OrdMap<K, V>"))
+
+    # -- graph surgery helpers that neither verifier reaches: statement order pinned ---------------------------
+    EN = 'impl ErasedNode for Node'
+    add({'C19', 'C11'}, lambda: F.in_order(
+        'frame/adjust_heights-checks-parent-and-bind-scope-edges-of-every-popped-node', 'src/adjust_heights_heap.rs', 'adjust_heights',
+        [r'while\s+let\s+Some\(child\)\s*=\s*self\.remove_min\(\)',
+         r'if\s+child\.is_in_recompute_heap\(\)\s*\{\s*rch\.increase_height\(&child\);\s*\}\s*child\.ensure_parent_height_requirements\(self,\s*&original_child,\s*&original_parent\);\s*child\.adjust_heights_bind_lhs_change\(self,\s*&original_child,\s*&original_parent\);'],
+        impl='impl AdjustHeightsHeap'))
+    add({'C11'}, lambda: F.in_order(
+        'frame/bind-rhs-swap-keeps-the-old-rhs-necessary-while-the-new-one-is-linked', 'src/node.rs', 'change_child_bind_rhs',
+        [r'old_child_node\.remove_parent\(child_index,\s*bind_main\)', r'old_child_node\.force_necessary\(\)\.set\(true\)',
+         r'new_child\.state_add_parent\(child_index,\s*bind_main,\s*state\)', r'old_child_node\.force_necessary\(\)\.set\(false\)',
+         r'old_child_node\.check_if_unnecessary\(state\)'], impl=EN))
+    add({'C11', 'C14'}, lambda: F.in_order(
+        'frame/expert-invalidate-propagates-to-dependants', 'src/state/expert.rs', 'invalidate',
+        [r'node\.invalidate_node\(&state\)', r'state\.propagate_invalidity\(\)'], impl=None))
+    add({'C14', 'C11'}, lambda: F.in_order(
+        'frame/every-push-of-an-invalid-child-is-counted-before-the-parent-is-queued', 'src/state.rs', 'propagate_invalidity',
+        [r'if\s+node\.should_be_invalidated\(\)', r'node\.invalidate_node\(self\)', r'node\.propagate_invalidity_helper\(\);',
+         r'if\s+!node\.is_in_recompute_heap\(\)\s*\{\s*self\.recompute_heap\.insert\(node\)'], impl='impl State'))
+    add({'C14', 'C09', 'C06'}, lambda: F.occurs(
+        'frame/every-parent-of-a-changed-node-is-told-unconditionally', 'src/node.rs', 'maybe_change_value_manual',
+        r'if\s+run_child_changed\s*\{\s*let\s+result\s*=\s*p\.child_changed\(self,\s*child_index,\s*old_value_opt\)', 2, impl='impl Node'))
+    add({'C05', 'C14', 'C11'}, lambda: F.body_is(
+        'frame/removing-an-expert-dependency-unlinks-and-rechecks-the-child', 'src/node.rs', 'expert_remove_child',
+        r'letchild=dyn_edge\.erased_input\(\);child\.remove_parent\(child_index,self\);child\.check_if_unnecessary\(state\);', impl=EN))
+    add({'C05'}, lambda: F.in_order(
+        'frame/an-invalidated-necessary-node-releases-its-children', 'src/node.rs', 'invalidate_node',
+        [r'if\s+self\.is_necessary\(\)\s*\{\s*self\.remove_children\(state\);'], impl=EN))
 
     # -- only needed nodes are scheduled -------------------------------------------------------------------
     add({'C05'}, lambda: F.each_guarded(
